@@ -41,7 +41,7 @@ def c10_schema(backend: str) -> Dict[str, Any]:
     hdr = "NS/Obj.h" if backend == "atlas" else "NS/Obj/interface/Obj.h"
     O = "ns::Obj"
     s["classes"][O] = {"header": hdr, **lib, "members": {
-        "val": num(), "n": num("int"), "hasNext": num("bool"), "vals": vec("double", md=md_method(O, "vals", return_type_element="double")),
+        "val": num(), "n": num("int"), "hasNext": num("bool"), "und": num("double", declared=False), "vals": vec("double", md=md_method(O, "vals", return_type_element="double")),
         "next": obj(O, 1, nullable=True, md=md_method(O, "next", return_type=O + "*")),
     }}
     s["classes"]["ns::Inner"] = {"header": hdr.replace("Obj", "Inner"), **lib, "members": {
@@ -143,6 +143,8 @@ def templates(s, backend) -> List[Tuple[str, str, str]]:
               (mth, "deref_collection_select", f"j.{mth}().inner_vals().Select(lambda v: v * 2)"), (mth, "deref_object_collection", f"j.{mth}().inner_objs().Select(lambda o: o.val())"),
               (mth, "deref_object_collection_where", f"j.{mth}().inner_objs().Where(lambda o: o.n() > 2).Count()")]
     T += [("w", "own_member", "j.w().own()"), ("w2", "own_member", "j.w2().own2()")]
+    # the same undeclared method name on two different types: each is assumed double, each is warned about
+    T += [("und", "same_name_two_types", "(j.und() + j.o_ptr().und())"), ("und", "same_name_two_types_rev", "(j.o_val().und() - j.und())")]
     E3 = jet.replace("::", ".") + ".Detail.Level"
     T += [("enum3", "compare", f"(j.level() == {E3}.Tight)"), ("enum3", "argument", f"j.isLevel({E3}.Medium)"), ("enum3", "output", "j.level()"),
           ("enum3", "conditional", f"(1.0 if j.level() != {E3}.Loose else 2.0)")]
@@ -285,6 +287,10 @@ def run(ctx: Ctx) -> int:
                 ctx.count("undeclared_method_warnings_seen", len(logs))
                 if not logs:
                     why = "no warning was logged for the undeclared method und()"
+                if t["template"].startswith("same_name_two_types"):
+                    types_warned = {l["msg"].split("'")[1].rsplit("::", 1)[0] for l in logs if "'" in l["msg"]}
+                    if len(types_warned) < 2:
+                        why = f"und() is undeclared on two types but a warning was logged for {sorted(types_warned)} only"
         if why:
             hit = next((f for f in known if t["form"] in f.get("forms", []) and (not f.get("templates") or t["template"] in f["templates"])), None)
             if hit:
